@@ -58,6 +58,17 @@ func (g Geom) Build() geom.Geometry {
 			}
 		}
 		return pg
+	case "COLLECTION":
+		col := geom.Collection{}
+		if len(g.C) == 2 {
+			col = append(col, geom.Point(g.C[0][0][0]))
+			pg := geom.Polygon{}
+			for _, r := range g.C[1] {
+				pg = append(pg, append([][2]float64{}, r...))
+			}
+			col = append(col, pg)
+		}
+		return col
 	case "MULTIPOLYGON":
 		mp := geom.MultiPolygon{}
 		for _, p := range g.C {
@@ -478,8 +489,8 @@ func drawPts(t *rapid.T, lo, hi int) [][2]float64 {
 func drawGeom(t *rapid.T, gtype string, allowEmpty bool) Geom {
 	empty := allowEmpty && rapid.IntRange(0, 4).Draw(t, "empty") == 0
 	g := Geom{T: gtype}
-	if gtype == "GEOMETRY" {
-		g.T = rapid.SampledFrom([]string{"POINT", "LINESTRING", "POLYGON", "MULTIPOLYGON"}).Draw(t, "anyType")
+	if gtype == "GEOMETRY" || gtype == "GEOMETRYCOLLECTION" {
+		g.T = rapid.SampledFrom([]string{"POINT", "LINESTRING", "POLYGON", "MULTIPOLYGON", "COLLECTION"}).Draw(t, "anyType")
 	}
 	switch g.T {
 	case "POINT":
@@ -504,6 +515,10 @@ func drawGeom(t *rapid.T, gtype string, allowEmpty bool) Geom {
 	case "POLYGON":
 		if !empty {
 			g.C = [][][][2]float64{{drawPts(t, 3, 6)}}
+		}
+	case "COLLECTION": // a collection of a point and a polygon; C[0] holds the point, C[1] the polygon's rings
+		if !empty {
+			g.C = [][][][2]float64{{{drawPt(t)}}, {drawPts(t, 3, 5)}}
 		}
 	case "MULTIPOLYGON":
 		if !empty {
